@@ -109,6 +109,8 @@ class Crate:
             k = it[0]
             if k == "const":
                 self.consts[(mod, it[1])] = (it[2], it[3])
+            elif k == "unparsed":
+                self.notes.append("%s: an item is outside the parser's subset: %s" % (rel, it[1]))
             elif k == "static":
                 self.notes.append("%s: static %s" % (rel, it[1]))
             elif k == "fn":
@@ -141,6 +143,8 @@ class Crate:
                     self.impl_traits.setdefault(owner, []).append(tname)
                 for sub in body:
                     if sub[0] == "fn":
+                        if cfgs:
+                            sub[6]["cfgs"] = list(sub[6]["cfgs"]) + list(cfgs)
                         self.fns.setdefault((owner, sub[1]), []).append({"fn": sub, "owner": owner, "self_ty": self.norm(target), "trait": tname, "file": rel, "trait_args": trait, "mod": mod})
                     elif sub[0] == "const":
                         self.consts[(owner, sub[1])] = (sub[2], sub[3])
@@ -200,7 +204,8 @@ class Crate:
             if last in self.enums:
                 return ("enum", last)
             if last == "Iter":
-                return ("iter",)
+                elems = [g for g in (gen or []) if g != ("lifetime",)]
+                return ("iter", self.norm(elems[0], self_ty)) if elems else ("iter",)
             return ("unknown", last)
         return U
 
@@ -446,6 +451,10 @@ class Translator:
             out["ok"] = True
         except Unsupported as e:
             out = {"ok": False, "reason": str(e)}
+        except RecursionError:
+            out = {"ok": False, "reason": "translator: expression nesting too deep"}
+        except Exception as e:  # noqa: BLE001 — a construct the translator mishandles is "not translated", never a crash
+            out = {"ok": False, "reason": "translator: %s: %s" % (type(e).__name__, str(e)[:120])}
         finally:
             self.stack.pop()
         out["file"] = rec["file"]
@@ -725,7 +734,7 @@ class FnTr:
     def assigned(self, node, acc):
         """names assigned anywhere inside `node`"""
         if isinstance(node, tuple):
-            if node and node[0] == "assign":
+            if node and isinstance(node[0], str) and node[0] == "assign":
                 try:
                     lhs = node[2]
                     if lhs[0] == "index":
@@ -737,7 +746,7 @@ class FnTr:
                         t = t[1]
                     if isinstance(t, tuple) and t and t[0] == "path":
                         acc.add(t[1][0] if isinstance(t[1][0], str) else "?")
-            if node and node[0] == "mcall":
+            if node and isinstance(node[0], str) and node[0] == "mcall":
                 # a `&mut self` method mutates its receiver
                 r = node[1]
                 try:
@@ -753,7 +762,7 @@ class FnTr:
 
     def has(self, node, kinds):
         if isinstance(node, tuple):
-            if node and node[0] in kinds:
+            if node and isinstance(node[0], str) and node[0] in kinds:
                 return True
             return any(self.has(x, kinds) for x in node)
         if isinstance(node, list):
@@ -857,8 +866,6 @@ class FnTr:
     def iterable(self, it, env, ctx, k):
         """evaluates an iterable expression to a Lean list; k(atom, ('arr', elem, n))"""
         if it[0] == "paren":
-            return self.iterable(it[1], env, ctx, k)
-        if it[0] == "mcall" and it[2] in ("iter", "into_iter", "copied", "cloned") and not it[3]:
             return self.iterable(it[1], env, ctx, k)
         if it[0] == "range":
             lo, hi, incl = it[1], it[2], it[3]
@@ -1206,7 +1213,7 @@ class FnTr:
 
     def has_sub(self, e):
         if isinstance(e, tuple):
-            if e and e[0] == "bin" and e[1] in ("-", "/", "%"):
+            if e and isinstance(e[0], str) and e[0] == "bin" and e[1] in ("-", "/", "%"):
                 return True
             return any(self.has_sub(x) for x in e)
         if isinstance(e, list):
@@ -1422,6 +1429,8 @@ class FnTr:
                     return k2(a, ("iter", ("char",)))
                 if name == "len" and not args:
                     raise Unsupported("str::len (UTF-8 byte length)")
+            if t[0] == "iter" and len(t) > 1 and name in ("copied", "cloned", "into_iter") and not args:
+                return k2(a, t)
             if t[0] == "iter" and len(t) > 1 and name == "next" and not args:
                 if rv is None:
                     raise Unsupported("next() on a temporary iterator")
@@ -1447,6 +1456,8 @@ class FnTr:
                     return self.ev(args[0], env, ctx, lambda b, t2: k2("(%s.contains %s)" % (a, b), BOOL), expect=t[1])
                 if name == "len" and not args:
                     return k2("%s.length" % a, I("usize"))
+                if name in ("iter", "into_iter") and not args:
+                    return k2(a, ("iter", t[1]))
                 if name in ("sort_unstable", "sort", "reverse") and not args:
                     if rv is None:
                         raise Unsupported("in-place method on a temporary")
@@ -1842,7 +1853,7 @@ def main():
     for owner, name in targets:
         try:
             out = tr.translate(owner, name)
-        except Unsupported as e:
+        except (Unsupported, Exception) as e:  # noqa: BLE001
             out = {"ok": False, "reason": str(e)}
             tr.done[(owner, name)] = out
         status["%s::%s" % (owner, name)] = {"translated": out["ok"], "reason": out.get("reason"), "fuel": out.get("fuel", False),
